@@ -426,6 +426,63 @@ pub fn families() -> Vec<Box<dyn Family>> {
             },
         ),
         family(
+            "structured_and_weak_hash",
+            "(a) token sequences with special STRUCTURE above the threshold (old a pure prefix / suffix / rotation / reversal / doubling of new, palindromes, all-equal, halves swapped; 90..300 line tokens) and (b) the same texts as a USER-DEFINED DiffableStr type whose Hash only feeds the token length (legal; all equally long tokens collide): ops == capture_diff_slices of the tokens x 3 algorithms",
+            false,
+            4,
+            |cfg| cfg.n(2_000, 40_000),
+            |idx, cfg, out| {
+                let mut rng = Rng::for_case(cfg.seed, "c14.structured", idx);
+                let (mut a, mut b, kind) = gen::structured_pair(&mut rng, if cfg.tiny { 6 } else { 160 });
+                // push both sides over / around the threshold by a common structured extension
+                if !cfg.tiny && rng.chance(2, 3) {
+                    let pad: Vec<u32> = (0..rng.range(60, 110) as u32).map(|i| i % 4).collect();
+                    if rng.chance(1, 2) {
+                        a.extend_from_slice(&pad);
+                        b.extend_from_slice(&pad);
+                    } else {
+                        let mut a2 = pad.clone();
+                        a2.extend_from_slice(&a);
+                        let mut b2 = pad.clone();
+                        b2.extend_from_slice(&b);
+                        a = a2;
+                        b = b2;
+                    }
+                }
+                let ta: String = a.iter().map(|x| format!("l{:04}\n", x)).collect();
+                let tb: String = b.iter().map(|x| format!("l{:04}\n", x)).collect();
+                out.sample(|| format!("structure={} {} vs {} line tokens", kind, a.len(), b.len()));
+                if a.len() > 100 || b.len() > 100 {
+                    out.nontrivial(&(&a, &b));
+                }
+                let algs: Vec<Algorithm> = if a.len().max(b.len()) > 200 { vec![Algorithm::Myers, Algorithm::Patience] } else { ALGS.to_vec() };
+                text_case(ta.as_bytes(), tb.as_bytes(), &[0, 5], &algs, out);
+                // (b) weak-hash text type
+                for &alg in &algs {
+                    out.eval();
+                    let r = guard(|| {
+                        let (wa, wb) = (crate::mon::WeakStr::new(&ta), crate::mon::WeakStr::new(&tb));
+                        let d = TextDiff::configure().algorithm(alg).diff_lines(wa, wb);
+                        let toks_a: Vec<&str> = ta.tokenize_lines();
+                        let toks_b: Vec<&str> = tb.tokenize_lines();
+                        (d.ops().to_vec(), capture_diff_slices(alg, &toks_a, &toks_b))
+                    });
+                    match r {
+                        Err(p) => out.violation("panic", format!("text diff over a user-defined DiffableStr panicked: {} | structure={}", p, kind)),
+                        Ok((got, want)) => {
+                            out.count("weak_hash_text_diffs");
+                            if got != want {
+                                out.violation(
+                                    "text.ops_differ_from_sequence_diff",
+                                    format!("user-defined DiffableStr with a length-only Hash: text diff ops {} but the sequence diff of the tokens gives {} | alg={} structure={} old tokens={} new tokens={}", fmt_ops(&got), fmt_ops(&want), alg_name(alg), kind, fmt_seq(&a), fmt_seq(&b)),
+                                );
+                            }
+                        }
+                    }
+                }
+            },
+        ),
+        family(
             "identify_distinct_capacity",
             "IdentifyDistinct at the exact capacity of its integer type: 255 and 256 distinct items for u8, 65535 and 65536 for u16 (ids 0..=MAX are all needed and all fit), at non-zero offsets; ids vs equality on sampled pairs, ranges, diff through the lookups vs direct diff",
             true,
